@@ -18,6 +18,7 @@ import (
 	"math"
 	"strings"
 
+	"github.com/sboehler/knut/lib/common/compare"
 	"github.com/sboehler/knut/lib/common/dict"
 	"github.com/sboehler/knut/lib/common/set"
 	"github.com/sboehler/knut/lib/syntax"
@@ -105,7 +106,9 @@ func (m *Model) inferAccount(t *syntax.Transaction, b *syntax.Booking, other str
 		best   string
 		found  bool
 	)
-	for candidate := range m.countByAccount {
+	// Candidates are visited in name order so that ties are broken the same
+	// way on every run.
+	for _, candidate := range dict.SortedKeys(m.countByAccount, compare.Ordered[string]) {
 		if candidate == other {
 			continue // the other account of this booking is not a valid candidate
 		}
@@ -127,7 +130,8 @@ func (m *Model) inferAccount(t *syntax.Transaction, b *syntax.Booking, other str
 func (m *Model) scoreCandidate(candidate string, tokens set.Set[token]) float64 {
 	count := float64(m.countByAccount[candidate])
 	score := math.Log(count / float64(m.count))
-	for token := range tokens {
+	// Floating point addition is not associative: sum in a fixed order.
+	for _, token := range tokens.Sorted(compare.Ordered[token]) {
 		if countForToken, ok := m.countByTokenAndAccount[token][candidate]; ok {
 			score += math.Log(float64(countForToken) / count)
 		} else {
